@@ -151,6 +151,7 @@ type Exec struct {
 	heapSeq   int
 	curFn     *ssa.Function
 	inPending int
+	entryPkg  *ssa.Package
 }
 
 func NewExec(eng *Engine, sol *Solver, harness string, prefix []uint64) *Exec {
